@@ -7,7 +7,7 @@ ID = "C19"
 # code after fixes/C19-exact-unused-imports.diff (VERIF_C19_MODEL=repaired)
 REPAIRED = os.environ.get("VERIF_C19_MODEL", "as-is") == "repaired"
 COQ_FILES = ["Common/Corr.v", "Model/Visibility.v", "Proofs/Visibility.v", "Model/Resolve.v",
-             "Model/UnusedImports.v", "Proofs/UnusedImports.v", "Props/C19.v"]
+             "Model/UnusedImports.v", "Proofs/UnusedImports.v", "Model/ExplicitFlag.v", "Proofs/ExplicitFlag.v", "Props/C19.v"]
 if REPAIRED:
     # additional material, not part of the default check: the rule after the (not applied) repair
     COQ_FILES += ["Model/UnusedImportsFixed.v", "Proofs/UnusedImportsFixed.v", "Props/C19_repaired.v"]
@@ -16,21 +16,29 @@ THEOREMS = ["C19_repaired_unused_warning_iff_removable", "C19_repaired_needed_ne
             "C19_repaired_same_answers"] if REPAIRED else ["C19_resolution_independent_of_unmarked_imports", "C19_unused_warning_sound", "C19_needed_never_warned",
             "C19_unused_warning_iff_removable_refuted", "C19_unused_warning_iff_removable_partial",
             "C19_warned_iff_never_first", "C19_mark_is_first_provider", "C19_marking_traversal_is_resolveInFile",
-            "C19_reference_programs_are_go_resolve"]
+            "C19_reference_programs_are_go_resolve", "C19_checked_iff_requested", "C19_checked_independent_of_order_and_schedule",
+            "C19_request_loop_needs_lock"]
 AXIOMS_OK = []
 TRUSTED = ["hand-written Gallina mirror of the usedImports marking in linker/resolve.go resolveInFile and of CheckForUnusedImports, "
            "on top of the C18 traversal model (Model/Visibility.v) and the C15 scoping model (Model/Resolve.v)",
            "the list of lookups a file makes (checks/C19.py renders each reference and states its channel: field type, extendee, "
            "rpc types, option extension name, extension name in a message literal, fileResolver lookups of the option interpreter)",
            "correspondence harness harness/cmd/unusedimports (compiles the file set, collects linker.ErrorUnusedImport warnings, "
-           "recompiles the root without each import and compares deterministic-marshal bytes of the descriptors)"]
+           "recompiles the root without each import and compares deterministic-marshal bytes of the descriptors; mode multi: one Compile "
+           "call for a list of requested files with filler files, MaxParallelism and yield-hook perturbation, against compiling each "
+           "requested file alone)",
+           "hand-written Gallina model of the explicitFile bookkeeping of compiler.go (Model/ExplicitFlag.v: compileLocked keeps an "
+           "existing result; the request loop of Compile is one block under the executor lock)"]
 ASSUMPTIONS = ["the symbols and packages of the compiled files are read from the compiled descriptors (harness facts); the import lists "
                "come from the generator and are cross-checked against the compiled Imports()",
                "removable in the theorems means: every lookup of every reference is answered by the same file with the same element; "
                "that the descriptors are then equal is exercised by the direct oracle (real recompilation), not proved",
                "the model is given, of every file, the package and those symbols whose full name ends (at a dot) with a reference as "
                "written or with its first component: no lookup the file makes can name any other symbol",
-               "option-interpreter lookups that cannot mark anything new are not modelled (cloneInto re-decoding, lookups through descriptors)"]
+               "option-interpreter lookups that cannot mark anything new are not modelled (cloneInto re-decoding, lookups through descriptors)",
+               "which files are checked at all: the schedule enters the model only as the order in which tasks ask for their imports; the "
+               "interleavings actually explored on the implementation are those the Go scheduler produces under filler load, "
+               "MaxParallelism 1/2/8/default and yield-hook perturbation (not exhaustive)"]
 
 DESC = "google/protobuf/descriptor.proto"
 ANYP = "google/protobuf/any.proto"
@@ -436,6 +444,151 @@ def corpus():
     return out
 
 
+# ---------------------------------------------------------------- several requested files in one Compile call
+def gen_multi(rng, shape=None):
+    """an import graph of real files m<i>.proto (i imports j only if i < j), most with an unused import of unused.proto, a
+    request list (subset, any order, sometimes with repeats) with filler files somewhere in it"""
+    n = rng.range(2, 7)
+    mods = ["", "", "", "public", "public", "weak"]
+    imports = {i: [] for i in range(n)}
+    for i in range(n):
+        for j in range(i + 1, n):
+            if rng.chance(2, 5) or (j == i + 1 and rng.chance(1, 2)):
+                imports[i].append((j, rng.choice(mods)))
+    files = {"unused.proto": 'syntax = "proto3";\npackage unused;\nmessage U { string s = 1; }\n'}
+    for i in range(n):
+        L = ['syntax = "proto3";', "package m%d;" % i]
+        il = ['import %s"m%d.proto";' % (fl + " " if fl else "", j) for j, fl in rng.shuffle(imports[i])]
+        if rng.chance(5, 6):
+            il.insert(rng.below(len(il) + 1), 'import "unused.proto";')
+        L += il
+        body = ["string s = 1;"]
+        k = 2
+        for j, fl in imports[i]:
+            if rng.chance(3, 4):
+                body.append("m%d.M%d f%d = %d;" % (j, j, k, k))
+                k += 1
+        L.append("message M%d { %s }" % (i, " ".join(body)))
+        files["m%d.proto" % i] = "\n".join(L) + "\n"
+    k = rng.range(2, n) if n > 2 else 2
+    req_ids = sorted(rng.shuffle(list(range(n)))[:k])
+    order = rng.choice(["importers-first", "importers-first", "random", "importees-first"])
+    if order == "random":
+        req_ids = rng.shuffle(req_ids)
+    elif order == "importees-first":
+        req_ids = req_ids[::-1]
+    req = ["m%d.proto" % i for i in req_ids]
+    if rng.chance(1, 8):
+        req.insert(rng.below(len(req) + 1), rng.choice(req))            # the same file requested twice
+    if rng.chance(1, 8):
+        req.insert(rng.below(len(req) + 1), "unused.proto")
+    fillers = rng.choice(shape or [0, 60, 300, 900, 2000])
+    # the fillers go after the first requested file more often than anywhere else
+    pos = 1 if rng.chance(1, 2) else rng.below(len(req) + 1)
+    req.insert(pos, "@fill")
+    return {"mode": "multi", "files": files, "req": req, "fillers": fillers, "par": rng.choice([0, 0, 1, 2, 8]),
+            "yield": rng.range(1, 1 << 30) if rng.chance(1, 2) else 0, "rounds": 3,
+            "_n": n, "_imports": imports, "_order": order}
+
+
+def multi_corpus():
+    U = 'syntax = "proto3";\npackage unused;\nmessage U { string s = 1; }\n'
+    A = 'syntax = "proto3";\npackage m0;\nimport "m1.proto";\nimport "unused.proto";\nmessage M0 { m1.M1 f = 1; }\n'
+    B = 'syntax = "proto3";\npackage m1;\nimport "unused.proto";\nmessage M1 { string s = 1; }\n'
+    C = 'syntax = "proto3";\npackage m2;\nimport public "m1.proto";\nimport "m0.proto";\nimport "unused.proto";\nmessage M2 { m1.M1 f = 1; }\n'
+    files = {"unused.proto": U, "m0.proto": A, "m1.proto": B, "m2.proto": C}
+    out = []
+    for req, fillers, par in ((["m0.proto", "@fill", "m1.proto"], 2500, 0), (["m0.proto", "@fill", "m1.proto"], 800, 2),
+                              (["m1.proto", "@fill", "m0.proto"], 800, 0), (["m2.proto", "m0.proto", "@fill", "m1.proto", "m0.proto"], 1500, 8),
+                              (["@fill", "m2.proto"], 40, 1), (["m0.proto", "m1.proto", "@fill"], 0, 1)):
+        out.append({"mode": "multi", "files": files, "req": req, "fillers": fillers, "par": par, "yield": 0, "rounds": 3,
+                    "_n": 3, "_imports": {0: [(1, "")], 1: [], 2: [(1, "public"), (0, "")]}, "_order": "hand"})
+    return out
+
+
+EF_HEADER = ("From Coq Require Import List NArith Bool.\nImport ListNotations.\n"
+             "From PV Require Import Common.Corr Model.ExplicitFlag.\nOpen Scope N_scope.\n")
+
+
+def run_multi(ctx):
+    """which files are checked at all: in one Compile call for several files, every explicitly requested file gets exactly the
+    warnings it gets when it is the only requested file, whatever the request order, MaxParallelism and schedule, and no other
+    file gets any"""
+    rng = ctx.rng
+    cases = multi_corpus()
+    for _ in range(ctx.budget(30, 600)):
+        cases.append(gen_multi(rng))
+    ins = [{k: v for k, v in c.items() if not k.startswith("_")} for c in cases]
+    outs = ctx.impl("unusedimports", ins, shards=ctx.budget(4, 8))
+    terms, meta = [], []
+    for c, i, o in zip(cases, ins, outs):
+        if "runs" not in o:
+            ctx.corr_break("unusedimports:multi-harness", i, o)
+            if "panic" in o or "crash" in o:
+                ctx.violation("panic", "the compiler panicked or the harness crashed on a request for several files", {"input": i, "observed": o})
+            continue
+        if o["ref_errs"]:
+            ctx.corr_break("unusedimports:multi-reference", i, {"ref_errs": o["ref_errs"]})
+            continue
+        real = [p for p in i["req"] if p != "@fill"]
+        fid = {"m%d.proto" % k: k for k in range(c["_n"])}
+        fid["unused.proto"] = c["_n"]
+        # every file reached as an import of a requested file, in some order (the theorem says the order is irrelevant)
+        reach, todo = [], [fid[p] for p in real if p != "unused.proto"]
+        seen = set()
+        while todo:
+            a = todo.pop()
+            if a in seen or a == c["_n"]:
+                continue
+            seen.add(a)
+            for j, _ in c["_imports"][a]:
+                reach.append(j)
+                todo.append(j)
+        for rn, r in enumerate(o["runs"]):
+            ctx.count((tuple(sorted(i["files"].items())), tuple(i["req"]), i["fillers"], i["par"], i["yield"], rn), True,
+                      "multi: fillers=%d par=%d %s%s" % (i["fillers"], i["par"], c["_order"], " yield" if i["yield"] else ""))
+            replay = {"mode": "multi", "files": i["files"], "req": i["req"], "fillers": i["fillers"], "par": i["par"], "yield": i["yield"],
+                      "rounds": i["rounds"], "round": rn, "warnings_when_requested_alone": o["ref"], "warnings_in_this_call": r["warned"],
+                      "fillers_without_their_warning": r["fill_bad"], "note": "schedule dependent: replay several rounds"}
+            if not r["ok"]:
+                ctx.corr_break("unusedimports:multi-compile", replay, {"errs": r["errs"][:3]})
+                continue
+            for p in sorted(set(real)):
+                got, want = r["warned"].get(p, []), o["ref"][p]
+                if got == want:
+                    continue
+                if not got:
+                    ctx.violation("explicit-file-not-checked", "an explicitly requested file with an unused import gets no unused-import "
+                                  "warning when it is requested together with other files", dict(replay, file=p))
+                elif len(got) > len(want) and sorted(set(got)) == want:
+                    ctx.violation("duplicate-warning", "an explicitly requested file gets its unused-import warnings more than once",
+                                  dict(replay, file=p))
+                else:
+                    ctx.violation("warnings-depend-on-request", "an explicitly requested file gets other unused-import warnings than when "
+                                  "it is the only requested file", dict(replay, file=p))
+            for p in sorted(r["warned"]):
+                if p not in real:
+                    ctx.violation("non-requested-file-warned", "a file that was not explicitly requested gets unused-import warnings",
+                                  dict(replay, file=p))
+            if r["fill_bad_n"]:
+                ctx.violation("explicit-file-not-checked", "explicitly requested (filler) files with one unused import do not get exactly "
+                              "that warning", dict(replay, file=r["fill_bad"][0], count=r["fill_bad_n"]))
+            # correspondence with the explicitFile model: files whose check is observable = requested with a non-empty reference,
+            # and every file that was not requested
+            uni = sorted(set([fid[p] for p in set(real) if o["ref"][p]] + [k for k in range(c["_n"]) if "m%d.proto" % k not in real]))
+            obs = sorted(fid[p] for p in r["warned"] if p in fid)
+            terms.append("EC [%s] [%s] [%s] [%s]" % ("; ".join(str(fid[p]) for p in real), "; ".join(map(str, reach)),
+                                                     "; ".join(map(str, uni)), "; ".join(map(str, obs))))
+            meta.append(replay)
+    mm, err = coq_eval_mismatches("cases_C19m", EF_HEADER, terms, "ef_chk", shard_size=400)
+    if err:
+        raise RuntimeError(err)
+    for k in mm:
+        ctx.corr_break("unusedimports:explicit-flag", meta[k], {"observed": meta[k]["warnings_in_this_call"]})
+    ctx.sample({"req": ins[0]["req"], "fillers": ins[0]["fillers"], "files": ins[0]["files"]})
+    return len(cases)
+
+
 def world_term(case, facts):
     """Coq term of the world: import graph from the generator, symbols from the compiled descriptors"""
     paths = sorted(facts.keys())
@@ -574,6 +727,7 @@ def run(ctx):
         ci, d, rp = ex_meta[k]
         ctx.violation("removable-import-not-warned:model-warns", "an import that can be removed without changing the descriptor is not "
                       "reported, and the marking rule of the model does report it", rp)
+    nmulti = run_multi(ctx)
     ctx.rule = ("file sets: %d hand-picked (element reachable through two imports, import used only through another import's public "
                 "re-export, own public import first, unused public/weak import, element defined in the file itself, package-name prefix "
                 "lookup, descriptor.proto with and without a plain option, duplicate-looking paths, import used only inside a message "
@@ -582,4 +736,9 @@ def run(ctx):
                 "10%%, descriptor.proto 17%%) and 0-5 references, each through one channel (field type, enum default, extendee, rpc types, "
                 "option name on field/message/file/method/enum value, extension name in a message literal or nested option name, Any type "
                 "URL, plain option, own type) with a random spelling (absolute, qualified, relative); every import of the root is removed "
-                "in turn and the root recompiled; distinct = distinct file set; non-trivial = compiles and has an import" % len(corpus()))
+                "in turn and the root recompiled; distinct = distinct file set; non-trivial = compiles and has an import; "
+                "plus %d Compile calls for several files at once (import graphs of 2-7 files, most with an unused import, plain/public/weak "
+                "edges; request list = subset in importers-first / random / importees-first order, sometimes a file twice or the unused "
+                "leaf itself; 0-2500 filler files, each explicitly requested with one unused import, inserted after the first requested "
+                "file or anywhere; MaxParallelism default/1/2/8; yield-hook perturbation in half of them; 3 rounds each), every file "
+                "compared with its warnings when requested alone" % (len(corpus()), nmulti))
